@@ -44,5 +44,6 @@ let () =
     | "chain" -> M_chain.run_line
     | "conc" -> M_conc.run_line
     | "lin" -> M_lin.run_line
+    | "own" -> M_own.run_line
     | _ -> failwith ("unknown mode " ^ mode) in
   iter_lines stdin (fun line -> if line <> "" then f line)
